@@ -1,4 +1,134 @@
-(* C10/Proofs.v -- operator trees. *)
+(* C10/Proofs.v -- operator trees: structural induction over the nine
+   operator-arithmetic classes and DiagonalOperator, for every heap. *)
 From Coq Require Import ZArith Reals Lra Lia List Bool Arith.
-From Verif Require Import Base.Num Base.Vec C10.Model C10.HeapLemmas C10.Leaves.
+From Verif Require Import Base.Num Base.Vec C10.Model C10.HeapLemmas C10.Leaves C10.Leaves2 C10.Leaves3.
 Import ListNotations.
+
+Section Tree.
+Context {T : Type} `{Num T} `{Sqrt T}.
+Notation heap := (heap T).
+Notation val := (list (list T)).
+
+Fixpoint wfop (n : nat) (e : op T) : Prop :=
+  match e with
+  | OLeaf l => wf_leaf n l
+  | OSum a b | OComp a b | OPw a b => wfop n a /\ wfop n b
+  | OVecSum a _ | OLScal a _ | ORScal a _ | OLVec a _ | ORVec a _ => wfop n a
+  | ODiag k a b => k <= n /\ wfop k a /\ wfop (n - k) b
+  end.
+
+Lemma pure_length (e : op T) : forall n v, wfop n e -> length v = n -> length (pure e v) = n.
+Proof.
+  induction e; intros n w Hwf Hl; cbn [pure wfop] in *;
+    try (destruct Hwf as [Hwa Hwb]); autorewrite with len; eauto using leaf_pure_length.
+  - apply IHe. exact Hwf. autorewrite with len; exact Hl.
+  - apply IHe. exact Hwf. autorewrite with len; exact Hl.
+  - destruct Hwb as [Hwb Hwc].
+    rewrite (IHe1 k), (IHe2 (n - k)); auto; autorewrite with len; lia.
+Qed.
+
+(* sublists of refs *)
+Lemma NoDup_app_inv (a b : ref) : NoDup (a ++ b) -> NoDup a /\ NoDup b /\ dis a b.
+Proof.
+  induction a as [|u a IH]; cbn; intros Hnd.
+  - split; [constructor|]. split; [exact Hnd|]. intros i [].
+  - inversion Hnd as [|? ? Hni Hnd']; subst. destruct (IH Hnd') as (Ha & Hb & Hd).
+    split; [constructor; [intros Hi; apply Hni, in_or_app; left; exact Hi | exact Ha]|].
+    split; [exact Hb|]. intros i [->|Hi] Hj.
+    + apply Hni, in_or_app; right; exact Hj.
+    + exact (Hd i Hi Hj).
+Qed.
+Lemma NoDup_firstn_skipn (k : nat) (r : ref) : NoDup r ->
+  NoDup (firstn k r) /\ NoDup (skipn k r) /\ dis (firstn k r) (skipn k r).
+Proof. intros Hnd. apply NoDup_app_inv. rewrite firstn_skipn. exact Hnd. Qed.
+Lemma dis_sub (a b a' b' : ref) : dis a b -> (forall i, In i a' -> In i a) -> (forall i, In i b' -> In i b) -> dis a' b'.
+Proof. intros Hd Ha Hb i Hi Hj; exact (Hd i (Ha i Hi) (Hb i Hj)). Qed.
+
+Lemma pre_firstn (h : heap) k x out : pre h x out -> pre h (firstn k x) (firstn k out).
+Proof.
+  intros (Hnd & Hbx & Hbo & Hal & Hl). repeat split.
+  - apply NoDup_firstn_skipn; exact Hnd.
+  - apply below_firstn; exact Hbx.
+  - apply below_firstn; exact Hbo.
+  - destruct Hal as [->|Hd]; [left; reflexivity | right]. eapply dis_sub; [exact Hd | |]; intros i; apply In_firstn.
+  - rewrite !firstn_length; lia.
+Qed.
+Lemma pre_skipn (h : heap) k x out : pre h x out -> pre h (skipn k x) (skipn k out).
+Proof.
+  intros (Hnd & Hbx & Hbo & Hal & Hl). repeat split.
+  - apply NoDup_firstn_skipn; exact Hnd.
+  - apply below_skipn; exact Hbx.
+  - apply below_skipn; exact Hbo.
+  - destruct Hal as [->|Hd]; [left; reflexivity | right]. eapply dis_sub; [exact Hd | |]; intros i; apply In_skipn.
+  - rewrite !skipn_length; lia.
+Qed.
+Lemma pre_mono (h h' : heap) x out : pre h x out -> next h <= next h' -> pre h' x out.
+Proof.
+  intros (Hnd & Hbx & Hbo & Hal & Hl) Hle. repeat split; auto; eapply below_mono; eauto.
+Qed.
+End Tree.
+
+(* use an induction hypothesis about run_ip as one symbolic step *)
+Ltac absorb_ip IH :=
+  match goal with
+  | |- context [run_ip ?a ?x ?o ?hv] => is_var hv;
+      let hn := fresh "h" in let W := fresh "W" in let N := fresh "N" in let P := fresh "P" in
+      let Wf := fresh "Wf" in
+      assert (P : pre hv x o) by pre_tac;
+      assert (Wf : wfop (length x) a) by (autorewrite with len; first [assumption | congruence]);
+      pose proof (post_wrote _ _ _ _ (IH hv x o Wf P)) as W;
+      pose proof (post_next _ _ _ _ (IH hv x o Wf P)) as N;
+      set (hn := run_ip a x o hv) in *; clearbody hn;
+      generalize dependent (next hn - next hv); intros ? N; nxt; clear P Wf
+  end.
+
+Section Tree2.
+Context {T : Type} `{Num T} `{Sqrt T}.
+Notation heap := (heap T).
+Notation val := (list (list T)).
+
+Theorem run_ip_ok (e : op T) : forall (h : heap) x out, wfop (length x) e -> pre h x out ->
+  post h (run_ip e x out h) out (pure e (get h x)).
+Proof.
+  induction e as [l | a IHa b IHb | a IHa v | a IHa b IHb | a IHa b IHb | a IHa s | a IHa s | a IHa v | a IHa v
+                 | k a IHa b IHb]; intros h x out Hwf Hpre; cbn [run_ip pure wfop] in *.
+  - apply leaf_ok; assumption.
+  - destruct Hwf as [Hwa Hwb]. split_alias Hpre; try rewrite Hl in *; exec; absorb1; absorb_ip IHa; absorb_ip IHb; absorb; finish.
+  - split_alias Hpre; try rewrite Hl in *; exec; absorb_ip IHa; absorb; finish.
+  - destruct Hwf as [Hwa Hwb]. split_alias Hpre; try rewrite Hl in *; exec; absorb1; absorb_ip IHb; absorb_ip IHa; absorb; finish.
+  - destruct Hwf as [Hwa Hwb]. split_alias Hpre; try rewrite Hl in *; exec; absorb1; absorb_ip IHa; absorb_ip IHb; absorb; finish.
+  - split_alias Hpre; try rewrite Hl in *; exec; absorb_ip IHa; absorb; finish.
+  - split_alias Hpre; try rewrite Hl in *; exec; absorb1; absorb1; absorb_ip IHa; absorb; finish.
+  - split_alias Hpre; try rewrite Hl in *; exec; absorb_ip IHa; absorb; finish.
+  - split_alias Hpre; try rewrite Hl in *; exec; absorb1; absorb1; absorb_ip IHa; absorb; finish.
+  - destruct Hwf as (Hk & Hwa & Hwb).
+    pose proof Hpre as (Hnd & Hbx & Hbo & Hal & Hl).
+    destruct (NoDup_firstn_skipn k out Hnd) as (Hnf & Hns & Hdfs).
+    assert (Hlf : length (firstn k x) = k) by (rewrite firstn_length; lia).
+    assert (Hls : length (skipn k x) = length x - k) by apply skipn_length.
+    assert (Hwa' : wfop (length (firstn k x)) a) by (rewrite Hlf; exact Hwa).
+    assert (Hwb' : wfop (length (skipn k x)) b) by (rewrite Hls; exact Hwb).
+    pose proof (IHa h (firstn k x) (firstn k out) Hwa' (pre_firstn h k x out Hpre)) as [A1 A2 A3].
+    set (h1 := run_ip a (firstn k x) (firstn k out) h) in *.
+    assert (Hp1 : pre h1 (skipn k x) (skipn k out)) by (eapply pre_mono; [apply pre_skipn; exact Hpre | exact A3]).
+    pose proof (IHb h1 (skipn k x) (skipn k out) Hwb' Hp1) as [B1 B2 B3].
+    set (h2 := run_ip b (skipn k x) (skipn k out) h1) in *.
+    assert (Hx2 : get h1 (skipn k x) = get h (skipn k x)).
+    { apply get_ext; intros i Hi. apply A2.
+      - eapply below_in; [apply below_skipn; exact Hbx | exact Hi].
+      - intros Hj. destruct Hal as [->|Hd].
+        + exact (Hdfs i Hj Hi).
+        + apply (Hd i); [eapply In_skipn; eauto | eapply In_firstn; eauto]. }
+    split.
+    + rewrite <- (firstn_skipn k out) at 1. rewrite get_app. f_equal.
+      * rewrite <- get_firstn, <- A1. apply get_ext; intros i Hi. apply B2.
+        -- assert (i < next h) by (eapply below_in; [apply below_firstn; exact Hbo | exact Hi]). lia.
+        -- intros Hj; exact (Hdfs i Hi Hj).
+      * rewrite B1, Hx2, get_skipn. reflexivity.
+    + intros i Hi Hni. rewrite B2, A2; auto.
+      * intros Hj; apply Hni; eapply In_firstn; eauto.
+      * lia.
+      * intros Hj; apply Hni; eapply In_skipn; eauto.
+    + lia.
+Qed.
+End Tree2.
